@@ -38,10 +38,10 @@ CHECKS.update({
 
 CHECKS.update({
  'C05': dict(
-   technique='CBMC contracts on NumberDataType::readRawValue / checkValueRange against an independent type specification (DFCC; multi-byte BCD harness-enforced per flag word)',
+   technique='CBMC contracts on NumberDataType::readRawValue / checkValueRange against an independent type specification (DFCC; multi-byte BCD harness-enforced per flag word); harness-enforced contract of DateTimeDataType::readSymbols (output as token stream) against a Gregorian calendar specification for every built-in date/time type of the mechanically extracted type table',
    level='proof',
-   text='readRawValue proved equal to the specified raw decoding (little/big endian, BCD/HCD digit validity, bit ranges, replacement) for every byte pattern, offset and every valid numeric type shape of 1..4 bytes; checkValueRange proved equal to the signed/unsigned/IEEE range predicate; calcPrecision proved.',
-   note=TB + 'Not decided in this revision: text rendering (readFromRawValue token stream, libstdc++ number formatting is trusted anyway), date/time/string types, value lists, KNX float.',
+   text='readRawValue proved equal to the specified raw decoding (little/big endian, BCD/HCD digit validity, bit ranges, replacement) for every byte pattern, offset and every valid numeric type shape of 1..4 bytes; checkValueRange proved equal to the signed/unsigned/IEEE range predicate; calcPrecision proved. DateTimeDataType::readSymbols proved for all byte patterns of DAY (every day count = the calendar date that many days after 01.01.1900, ff ff = null), DTM (every minute count up to 31.12.2099 23:59 = calendar date and time, beyond rejected), MIN, TTM/TTH/TTQ, BTI/HTI/VTI/BTM/HTM/VTM (components in display order, BCD digit check, 24:00:00 limit) and BDA/HDA dates (day/month/year range), with the output as a token sequence (separators, numbers with width 2 / zero fill, decimal mode whatever the stream state was).',
+   note=TB + 'Not decided in this revision: text rendering of numbers (readFromRawValue token stream, libstdc++ number formatting is trusted anyway), partially null dates/times, weekday names, string types, value lists, KNX float, JSON format.',
    ref='DESIGN.md 5 (C05)'),
  'C06': dict(
    technique='CBMC contracts on NumberDataType::writeRawValue (harness-enforced, whole-string frame) + round-trip lemma over the read/write specification functions',
@@ -146,10 +146,10 @@ CHECKS.update({
    note=TB + 'bounded string model (capacity 9, unwinding assertions); call sites in the command handlers are outside the extraction reach.',
    ref='DESIGN.md I.2 (C16)'),
  'C18': dict(
-   technique='bounded CBMC check (harness-enforced contract) of the extracted RequestImpl::add HTTP branch against a decode-exactly-once specification, sscanf as a stub with a literal-format precondition',
+   technique='bounded CBMC checks (harness-enforced contracts) of the extracted RequestImpl::add HTTP branch against a decode-exactly-once specification (sscanf as a stub with a literal-format precondition) and of RequestImpl::split (TCP branch) against a character-level reference tokenizer',
    level='other',
-   text='BOUNDED, partial: for every HTTP request line up to 14 characters the URI is proved to have every %XY escape decoded exactly once, left to right, and the sscanf format is proved to be the literal "%1x%1x" (never request text). Argument splitting (RequestImpl::split), the static file branch of executeGet (root confinement) and MQTT topic matching (StringReplacer) are NOT decided in this revision.',
-   note=TB + 'bounded string model (capacity 14, unwinding assertions); sscanf stub reads two hex digits.',
+   text='BOUNDED, partial: for every HTTP request line up to 14 characters the URI is proved to have every %XY escape decoded exactly once, left to right, and the sscanf format is proved to be the literal "%1x%1x" (never request text); for every TCP command line up to 9 characters with terminated quotes the argument list equals the reference tokenizer (blanks outside quotes separate once, a token starting with a quote extends to the token ending with that quote, quotes removed, blanks inside kept). The static file branch of executeGet (root confinement), the HTTP branch of split and MQTT topic matching (StringReplacer) are NOT decided in this revision.',
+   note=TB + 'bounded string model (capacity 14 / 9, unwinding assertions); sscanf stub reads two hex digits; istringstream/getline(delim) and vector<string> are value models; command lines with an unterminated quote are outside the specification.',
    ref='DESIGN.md I.2 (C18)'),
 })
 
